@@ -49,7 +49,8 @@ type c19World struct {
 	radius  float64
 	cpts    []*object.Point // end points of the corridor / clearance calls (sized for zoom ch)
 	ch      int64
-	tileOut int64 // output vertical zoom of the tile conversions (near the tiles' horizontal zoom: small expansions)
+	high    *integrate.HighSpatialID // shared, read-only: the product of three merges (its source-ID list has spare capacity)
+	tileOut int64                    // output vertical zoom of the tile conversions (near the tiles' horizontal zoom: small expansions)
 }
 
 type c19Op struct {
@@ -173,6 +174,16 @@ var c19Ops = []c19Op{
 	{"integrate.ChangeSpatialIdsZoom", func(w *c19World) string { return cs(integrate.ChangeSpatialIdsZoom(w.sp, w.h)) }},
 	{"integrate.MergeExtendedSpatialIds", func(w *c19World) string { return cs(integrate.MergeExtendedSpatialIds(w.ext, w.h, w.v)) }},
 	{"integrate.MergeSpatialIds", func(w *c19World) string { return cs(integrate.MergeSpatialIds(w.sp, w.h)) }},
+	{"integrate.HighSpatialID.Merge(shared argument)", func(w *c19World) string {
+		b0, _ := ref.ParseExt(w.ext[0])
+		o, err := object.NewExtendedSpatialID(ref.Box{H: b0.H + 1, X: b0.X*2 + 1, Y: b0.Y*2 + 1, V: b0.V + 1, F: b0.F*2 + 1}.Ext())
+		if err != nil || w.high == nil {
+			return "n/a"
+		}
+		r := integrate.NewHighSpatialID(integrate.NewUnitDividedSpatialID(o, 0, 0), 1, 1)
+		r.Merge(w.high)
+		return fmt.Sprint(r.ID(), r.IsDense(), w.high.ID(), w.high.IsDense())
+	}},
 	{"integrate.HorizontalZoom+VerticalZoom", func(w *c19World) string {
 		b, _ := ref.ParseExt(w.ext[0])
 		return fmt.Sprint(integrate.HorizontalZoom(b.H, b.X, b.Y, w.h), integrate.VerticalZoom(b.V, b.F, w.v))
@@ -284,6 +295,21 @@ var c19Ops = []c19Op{
 	{"object.ExtendedSpatialID methods", func(w *c19World) string {
 		return fmt.Sprint(w.eobj.ID(), w.eobj.FieldParams(), w.eobj.Higher(0, 0).ID(), w.tiles[0].HZoom(), w.qks[0].Quadkey(), w.pts[0].Lat())
 	}},
+	{"remaining exported helpers", func(w *c19World) string {
+		b, _ := ref.ParseExt(w.ext[0])
+		x0, x1, y0, y1 := integrate.HorizontalZoomMinMax(b.H, b.X, b.Y, w.h)
+		pts := []*spatial.Point3{{X: 1, Y: 2, Z: 3}, {X: -1, Y: 5, Z: 0.5}, {X: 1, Y: 2, Z: 3}}
+		mx, _ := spatial.MaxPoint(pts, spatial.Vector3{X: 1})
+		mn, _ := spatial.MinPoint(pts, spatial.Vector3{Y: 1})
+		up := spatial.UniqueAppend(pts[:2], pts[2], 1e-9)
+		l := spatial.NewLineFromPoints(*pts[0], *pts[1])
+		q := spatial.QuatFromAxisAngle(spatial.Vector3{Z: 1}, 0.5)
+		m := spatial.NewMatrix3(1, 2, 3, 4, 5, 6, 7, 8, 10)
+		mi, _ := common.Min([]int64{w.h, w.v, 3})
+		return fmt.Sprint(x0, x1, y0, y1, *mx, *mn, len(up), l.ToPoint(0.25), q, m, spatial.NewUnitMatrix3(), spatial.NewVectorFromPoints(*pts[0], *pts[1]),
+			common.AlmostEqual(1, 1+1e-12, 1e-10), shape.CheckZoom(w.h), shape.CheckZoom(36), common.DegreeToRadian(180), common.RadianToDegree(1), common.Union(w.ext, w.ext[:1]),
+			common.Include(w.ext, w.ext[0]), mi)
+	}},
 	{"common helpers", func(w *c19World) string {
 		u := common.Unique(w.ext)
 		sort.Strings(u)
@@ -376,6 +402,20 @@ func c19BuildWorld(c *CaseC19) *c19World {
 	}
 	for _, p := range c.Pts {
 		w.pts = append(w.pts, p.obj())
+	}
+	// a merged object shared by all goroutines (only ever passed as the ARGUMENT of Merge)
+	for i := int64(0); i < 3; i++ {
+		b0 := c.Boxes[0]
+		o, err := object.NewExtendedSpatialID(ref.Box{H: b0.H + 1, X: b0.X*2 + i%2, Y: b0.Y*2 + i/2, V: b0.V + 1, F: b0.F * 2}.Ext())
+		if err != nil {
+			break
+		}
+		h := integrate.NewHighSpatialID(integrate.NewUnitDividedSpatialID(o, 0, 0), 1, 1)
+		if w.high == nil {
+			w.high = h
+		} else {
+			w.high.Merge(h)
+		}
 	}
 	e := c.Boxes[0]
 	e.V = clamp64(e.H+1, 0, 35)
